@@ -4,9 +4,9 @@ From Coq Require Import List Ascii String.
 Require Import TT.Model.Str TT.Spec.TsLex TT.Model.C04Case TT.Model.C04Model TT.Spec.C04TauriCase TT.Spec.C04Obs.
 Import ListNotations.
 
-Definition c04_cmd (name : str) (macro : option str) (ps : list (str * cty)) : cmd :=
+Definition c04_cmd (name : str) (macro : option str) (ps : list (str * cty * ppat)) : cmd :=
   {| c_name := name; c_macro_case := macro;
-     c_params := map (fun p => {| p_name := fst p; p_ty := abs_ty (snd p) |}) ps |}.
+     c_params := map (fun p => {| p_name := fst (fst p); p_ty := abs_ty (snd (fst p)); p_pat := snd p |}) ps |}.
 Definition c04_cfg (default_case : str) : cfg := {| default_case := default_case |}.
 
 Inductive keyres := KPanic | KDangling | KObsErr (e : obs_err) | KKeys (l : list entry).
@@ -29,12 +29,12 @@ Definition c04_spec_keys := spec_keys.
 Definition c04_dom (cf : cfg) (c : cmd) : bool := cfg_dom cf && cmd_dom c.
 (* membership in each recorded class, in the order of known_findings/C04.json *)
 Definition c04_classes (cf : cfg) (c : cmd) : list bool :=
-  [kf_bare_window c; kf_macro_case cf c; kf_underscore_name cf c].
+  [kf_bare_window c; kf_macro_case cf c; kf_underscore_name cf c; kf_pattern c].
 Definition c04_tauri_camel := tauri_camel.
 Definition c04_tauri_snake := tauri_snake.
 
 (* project level *)
-Definition c04_fn (name : str) (is_command : bool) (macro : option str) (ps : list (str * cty)) : fn_item :=
+Definition c04_fn (name : str) (is_command : bool) (macro : option str) (ps : list (str * cty * ppat)) : fn_item :=
   {| f_cmd := c04_cmd name macro ps; f_is_command := is_command |}.
 Definition c04_commands (f : file) : list cmd := commands_of f.
 Definition c04_cmd_name (c : cmd) : str := c_name c.
